@@ -27,7 +27,7 @@ def run(repo, R):
         R.check(ok, "SLOT", f.site, f"[{name}] type K", f"[{name}] the kernel returns axes {ret.labels}; both halves of the library index functions as (segment, component) "
                 f"of the shells in argument order", where=f.where(), expected=str(want), found=str(ret.labels))
         n += 1
-    R.floor("SLOT", n, 9, "integral kernel runs")
+    R.floor("SLOT", n, 6, "integral kernel runs")
     c05.run_slots(repo, R)
     # assembly pipelines
     from .c09 import run_assembly
